@@ -159,8 +159,8 @@ Definition set_pid (st : store) (v : view) (val : pval) : store * option exn :=
       (mkStore (fill v z (s_pid st)) (maybe_add_ni z (s_phases st)) (s_props st), None)
   | PArr zs =>
       match zs with
-      | [] => if Nat.eqb (count v) 0 then (st, Some ValueError)     (* truth value of an empty array *)
-              else (st, Some ValueError)                            (* shape mismatch, nothing assigned *)
+      | [] => (st, Some ValueError)     (* no point selected: assigned nothing, then the truth value of an
+                                           empty array raises (numpy >= 2.2); otherwise shape mismatch *)
       | [z] => (mkStore (fill v z (s_pid st)) (maybe_add_ni z (s_phases st)) (s_props st), None)
       | _ => if Nat.eqb (List.length zs) (count v)
              then (* assigned, THEN `if value == -1` raises: ambiguous truth value *)
